@@ -20,7 +20,9 @@ Definition strict_head (c : cfg) (s : bytes) (r : request) (after : bytes) : Pro
     ( (s = line ++ CRLF ++ CRLF ++ after /\ r_headers r = [])
       \/ exists block, s = line ++ CRLF ++ block ++ CRLFCRLF ++ after
                        /\ find_pat CRLFCRLF (block ++ CRLFCRLF ++ after) = Some (length block)
-                       /\ forallb strict_field_line (split_crlf block) = true ).
+                       /\ forallb strict_field_line (split_crlf block) = true
+                       (* the header list IS the list of these field lines (minus what header_map withholds) *)
+                       /\ r_headers r = filter (kept c false) (map field_of_line (split_crlf block)) ).
 
 Lemma read_line_whole lim s l rb p : read_line lim s [] = inl (l, rb, p) ->
   exists i, find_pat CRLF s = Some i /\ l = firstn i s /\ rb ++ concat p = skipn (i + 2) s.
@@ -83,7 +85,8 @@ Proof.
     { rewrite Ha. apply (find_pat_split CRLFCRLF). exact Hp. }
     split; [rewrite Hs at 1; rewrite Hsplit at 1; reflexivity|]. split.
     + rewrite <- Hsplit. rewrite firstn_length. replace (Nat.min j (length (skipn (i + 2) s))) with j by lia. exact Hp.
-    + unfold parse_headers in Eph. eapply accepted_field_lines_strict; eassumption.
+    + split; [unfold parse_headers in Eph; eapply accepted_field_lines_strict; eassumption|].
+      eapply parse_headers_are_the_lines; eassumption.
 Qed.
 
 (* ... and therefore from every segmentation *)
